@@ -33,7 +33,7 @@ type sporkBehaviour struct {
 }
 
 const sporkCfg = `CONSTANTS
-  MinDelay = 2
+  MinDelay = 3
   MaxH = %d
   WithHist = %s
 INIT Init
@@ -149,6 +149,9 @@ func sporkReplay(run *core.Run, b *sporkBehaviour, outcomes map[string]int) erro
 				got = "unavailable"
 			}
 			outcomes[s.F+"/"+got]++
+			if s.R == "unavailable-or-higher" {
+				continue // just below the enforcement height of the feature's own spork: availability depends on the other sporks only
+			}
 			if got != s.R {
 				run.Report(fmt.Sprintf("C17:%s-%s-specified-%s", s.F, got, s.R),
 					fmt.Sprintf("step %d: a call to the %s feature evaluated at height %d is %s (%v), the specification says %s; behaviour %s", si+1, s.F, p.Height(), got, err, s.R, core.JSON(b.Steps)), rep)
@@ -190,12 +193,12 @@ func C17(run *core.Run) {
 		return
 	}
 	run.Assume = []string{
-		"features are probed through send-time validation of one representative call per spork (accelerator CreateProject, liquidity CollectReward, htlc Create); heights in the specification are real heights (SporkMinHeightDelay set to 2 as the repository's tests shorten vars)",
+		"features are probed through send-time validation of one representative call per spork (accelerator CreateProject, liquidity CollectReward, htlc Create); heights in the specification are real heights (SporkMinHeightDelay set to 3 as the repository's tests shorten vars)",
 		"the process-global spork identifiers are pointed at the sporks the behaviour creates, as the repository's spork tests do",
 	}
 	walk.LabConstants()
-	constants.SporkMinHeightDelay = 2
-	maxH := 12
+	constants.SporkMinHeightDelay = 3
+	maxH := 13
 	res, err := core.RunTLC(core.TLCOpts{Module: "Spork", CfgText: fmt.Sprintf(sporkCfg, maxH, "FALSE", "INVARIANTS GateByHeight\nPROPERTIES ActivationRules"), Timeout: 10 * time.Minute})
 	if err != nil || res.Violated != "" || res.Err != "" {
 		core.Fatal("Spork: %v %s %s", err, res.Violated, res.Err)
@@ -207,7 +210,7 @@ func C17(run *core.Run) {
 		core.Fatal("the cumulative method tables must make TLC refute CodeEqualsProperty (F13)")
 	}
 	run.Set("negative_controls", []string{"availability by the feature's own spork only (the property) vs. cumulative tables (the code): TLC refutes CodeEqualsProperty - recorded finding F13"})
-	every := int64(5)
+	every := int64(9)
 	if run.Thorough() {
 		every = 2
 	}
@@ -225,6 +228,29 @@ func C17(run *core.Run) {
 				core.Fatal("bad spork behaviour")
 			}
 			last := b.Steps[len(b.Steps)-1]
+			if last.A == "Activate" && last.R == "already" {
+				// a repeated activation changes nothing (a self-loop of the abstract graph): completed with ticks up to the ORIGINAL
+				// enforcement height and a call that must find the feature available exactly from there
+				e, h := 0, last.H
+				for _, s := range b.Steps {
+					if s.A == "Activate" && s.R == "activated" && s.I == last.I && e == 0 {
+						e = s.H + 1
+					}
+				}
+				if e == 0 || e > maxH {
+					return
+				}
+				for h < e {
+					h++
+					b.Steps = append(b.Steps, sporkStep{A: "Tick", R: "tick", H: h})
+				}
+				b.Steps = append(b.Steps, sporkStep{A: "Call", F: last.I, R: "available", Prop: true, H: h})
+				if err := sporkReplay(run, &b, outcomes); err != nil {
+					core.Fatal("spork replay: %v", err)
+				}
+				replayed++
+				return
+			}
 			if last.A != "Call" && !(last.A != "Tick" && !last.Designated) {
 				return
 			}
@@ -307,7 +333,7 @@ func lastMarker(s, marker string) string {
 
 func c17HaltChild() {
 	walk.LabConstants()
-	constants.SporkMinHeightDelay = 2
+	constants.SporkMinHeightDelay = 3
 	p, err := node.New("halt", node.Options{Producer: true})
 	if err != nil {
 		os.Exit(3)
